@@ -1,11 +1,17 @@
 //! Seam probe for the C09 end-to-end lane: prints the iteration order of a std HashSet.
 //! Run under LD_PRELOAD=libsimseed.so with ACBSIM_SEED set, the order must be a function of the
 //! seed (same seed -> same line, other seed -> another line), which shows that the preload owns
-//! the RandomState keys of a real process. Contains no interposition of its own.
+//! the RandomState keys of a real process. It also prints where a heap block, a mapped block and a
+//! stack slot live: with address-space randomisation off and ACBSIM_LAYOUT set, those must be a
+//! function of that value too. Contains no interposition of its own.
 use std::collections::HashSet;
 fn main() {
     let s: HashSet<u32> = (0..64).collect();
     let v: Vec<String> = s.iter().map(|x| x.to_string()).collect();
     let now = std::time::SystemTime::now().duration_since(std::time::UNIX_EPOCH).map(|d| d.as_secs()).unwrap_or(0);
-    println!("{} now={} pid={}", v.join(","), now, std::process::id());
+    // where things live: a small heap block, a large (mmap-served) one, a stack slot
+    let small = Box::new(7u64);
+    let large = vec![0u8; 8 << 20];
+    let slot = 0u8;
+    println!("{} now={} pid={} layout={:p}/{:p}/{:p}", v.join(","), now, std::process::id(), &*small, large.as_ptr(), &slot);
 }
